@@ -4,6 +4,7 @@ import NanoVerif.Model.Verifier
 import NanoVerif.Model.Vm
 import NanoVerif.Model.Cop
 import NanoVerif.Model.CopClient
+import NanoVerif.Model.Gate
 namespace NanoVerif.Driver
 
 def natList (ws : List String) : Option (List Nat) := ws.mapM String.toNat?
@@ -264,6 +265,23 @@ def copRunCmd (ws : List String) : String :=
       | .signal w => s!"signal {w}"
   | _ => "bad-op"
 
+/-- `gate <restOk 0|1> <name:ext:fails,...>` -/
+def gateCmd (ws : List String) : String :=
+  match ws with
+  | [rest, tests] =>
+    let parsed := ((tests.splitOn ",").filter (· ≠ "")).mapM fun t =>
+      match t.splitOn ":" with
+      | [n, e, f] => f.toNat?.map fun k => ({ name := n, usesExtern := e == "1", falseAsserts := k } : ShadowRun)
+      | _ => none
+    match parsed with
+    | none => "bad-op"
+    | some ts =>
+      let g := runShadowTests ts
+      let d := phase5 ts (rest == "1")
+      s!"exit={d.exitCode} transpile={d.reachesTranspile} tests={g.testCount} skipped={g.skipped} failures=" ++
+        ",".intercalate (g.failures.map fun (n, k) => s!"{n}:{k}")
+  | _ => "bad-op"
+
 def handle (line : String) : String :=
   match line.splitOn " " with
   | "isa.dec" :: [hex] => isaDec hex
@@ -277,6 +295,7 @@ def handle (line : String) : String :=
   | "cop.ser" :: ws => copSerCmd ws
   | "cop.de" :: [hex] => copDeCmd hex
   | "cop.run" :: ws => copRunCmd ws
+  | "gate" :: ws => gateCmd ws
   | _ => "bad-op"
 
 end NanoVerif.Driver
